@@ -30,5 +30,15 @@ CLAIMED = {
         "B in list length for the functional part only: towers <= 2 x floors <= 1 (quick) or 2 (thorough) with every payload length symbolic (so every tower-length residue mod 8 is covered). A-PY.",
         "DESIGN 5 C18",
     ),
+    "C13": (
+        "Deductive proof for every stub length, verification trailer (any bytes) present or absent, any signature size and header signing on/off: _create_request returns exactly the specified request (VT at the next multiple of 4, zero padding to a multiple of 16 when authenticated, pad_length = padding added, auth_len = signature size, encrypt offsets (24, 24+len)); _prepare_pdu patches frag_len to the PDU size and hands exactly header[0:24] | stub+padding | 8 trailer bytes to AuthenticationProvider.wrap with the client's header-signing flag; wrap/unwrap pass [(sign_only|data_readonly, header), body, (same, trailer), header buffer] to the security context and return header ++ sealed ++ trailer ++ signature; _process_get_key_result hands the decoder the stub minus exactly the declared pad_length and never rejects a reply itself.",
+        "A-SPNEGO: wrap_iov/unwrap_iov seal the data buffer in place (same length), sign sign_only buffers, signature size = query_message_sizes().header (constant per context). Requests larger than one 64 KiB fragment are outside the contract (the client has no fragmentation). A-PY.",
+        "DESIGN 5 C13",
+    ),
+    "C16": (
+        "Deductive proof for an ARBITRARY received fragment: when the request was sealed, _process_response returns a Response only after exactly one unwrap(header=R[:24], body=R[24:s], trailer=R[s:s+8], signature=R[s+8:], sign_header=client flag) with s = frag_len-auth_len-8 and auth_len > 0, and the returned stub is the unwrap output (or empty when the declared lengths are inconsistent) - never bytes that bypassed the security context; a reply without security trailer raises ValueError; BindNak/Fault/other types raise. unwrap itself is proved to give the security context the signature and the three buffers with the right buffer types; request level is the constant PKT_PRIVACY in the trailer built by get_empty_trailer.",
+        "A-SPNEGO / A-IDEAL: a successful unwrap_iov means the peer holding the session key sealed exactly these buffers (cryptographic unforgeability and replay protection are inside the security context and are assumed, not proved). PDU.unpack is used through its summary contract, verified under C12.",
+        "DESIGN 5 C16",
+    ),
 }
 NOT_CLAIMED = {}
